@@ -35,6 +35,7 @@ import (
 	"sort"
 	"strconv"
 	"strings"
+	"syscall"
 	"time"
 
 	vegeta "github.com/tsenart/vegeta/v12/lib"
@@ -777,7 +778,40 @@ func c13RunCLI(run *ev.Run, cc codecCounts, bin, base, id string, files []c13Fil
 	// encode f1..fk
 	to := codecNames[len(all)%3]
 	out := filepath.Join(dir, "merged."+to)
-	res := codecRunVegeta(bin, append([]string{"encode", "-to", to, "-output", out}, paths...)...)
+	if len(all)%2 == 0 {
+		// the output path already holds an older, longer result file: it is replaced, not written over
+		if err := codecWriteFile(out, to, append(append([]vegeta.Result(nil), all...), all...)); err == nil {
+			cc["cli_encode_runs_over_an_existing_longer_file"]++
+		}
+	}
+	encPaths := append([]string{}, paths...)
+	if len(files) >= 2 && len(files[1].recs) > 0 && len(all)%3 != 1 {
+		// one input arrives through a named pipe (what `<(...)` and mkfifo give a command): it has no size
+		fifo := filepath.Join(dir, "piped-input")
+		if data, err := os.ReadFile(paths[1]); err == nil && syscall.Mkfifo(fifo, 0o644) == nil {
+			fed := make(chan struct{})
+			go func() {
+				defer close(fed)
+				w, err := os.OpenFile(fifo, os.O_WRONLY, 0)
+				if err != nil {
+					return
+				}
+				w.Write(data)
+				w.Close()
+			}()
+			defer func() {
+				// if the command never opened the pipe, let the writer go
+				if r, err := os.OpenFile(fifo, os.O_RDONLY|syscall.O_NONBLOCK, 0); err == nil {
+					<-fed
+					r.Close()
+				}
+				os.Remove(fifo)
+			}()
+			encPaths[1] = fifo
+			cc["cli_encode_runs_with_an_input_from_a_named_pipe"]++
+		}
+	}
+	res := codecRunVegeta(bin, append([]string{"encode", "-to", to, "-output", out}, encPaths...)...)
 	cc["cli_encode_runs"]++
 	if res.Err != nil {
 		run.Inconclusive("vegeta encode could not be run: " + res.Err.Error())
